@@ -501,6 +501,26 @@ func c08(c *ev.Ctx) {
 	c.Sample(map[string]interface{}{"kind": "struct", "script": cases[nText+2*len(c08FaultScripts)].Script, "object": gen.RandStruct(rand.New(rand.NewSource(cases[nText+2*len(c08FaultScripts)].ObjSeed)), 4, 45, 20).Desc})
 	c08UsableAfterwards(c)
 	c08CompileGrowth(c)
+	// blocks behind constant conditions whose tail bytes look like opcodes (family shared with
+	// C03): Prepare comes back, with or without the optimizer
+	for i, script := range constIfTailScripts() {
+		id := fmt.Sprintf("const-if-tail/%d", i)
+		if !c.Want(id) {
+			continue
+		}
+		for _, noOpt := range []bool{false, true} {
+			evr, err := eng.New(script, eng.Options{NoOptimize: noOpt, Budget: 100000})
+			c.Case(id+fmt.Sprint(noOpt), true)
+			if err != nil {
+				c.Violation(id, "Prepare fails on a valid script", map[string]interface{}{"summary": fmt.Sprintf("%s (noopt=%v): Prepare returned %v", script, noOpt, err), "script": script})
+				break
+			}
+			if o := evr.Exec(map[string]interface{}{"Flag": 3}); o.Panicked {
+				c.Violation(id, "panic running a valid script", map[string]interface{}{"summary": script + ": " + o.PanicMsg, "script": script})
+				break
+			}
+		}
+	}
 	// Prepare / Dump / Execute do not panic after a second Prepare that was accepted, refused
 	// by the compiler, or refused by the size limits (the stream is shared with C20)
 	c20RePrepare(c)
